@@ -26,7 +26,7 @@ OUTSIDE = ['temperature / logarithmic operands (C05)', 'arrays longer than 2', '
 BOUNDS = {'quick': {'unit pairs': '24 +/- pairs, 22 */ pairs', 'exponents': 'n/d, n in -3..3, d in 1..4, as int, tuple, Fraction, float'},
           'thorough': {'unit pairs': 'plus 120 random same-dimension pairs and 120 random products from the prefixed-symbol list', 'exponents': 'same, on 6 base units'}}
 EXHAUSTIVE = {'quick': False, 'thorough': False}
-PRE = "from scinumtools.units import Quantity, Fraction\nimport fractions as _fr\n" + unitkit.REF_SRC + '''
+PRE = "from scinumtools.units import Quantity, Fraction\nimport fractions as _fr\nimport numpy as np\n" + unitkit.REF_SRC + '''
 def base(O, q):
     f, d, ex = ref_units(q.units())
     return q.value() * f
@@ -117,6 +117,10 @@ def run(v, O):
     forms.append(('tuple', (v.n, v.d)))
     forms.append(('Fraction', Fraction(v.n, v.d)))
     forms.append(('float', v.n / v.d))
+    if v.d in (1, 2, 4):          # exactly representable in every binary float type
+        forms.append(('np.float64', np.float64(v.n / v.d)))
+        forms.append(('np.float32', np.float32(v.n / v.d)))
+        forms.append(('np.float16', np.float16(v.n / v.d)))
     out = []
     for name, p in forms:
         r = A ** p
@@ -147,7 +151,9 @@ SAMEDIM = [('m', 'm'), ('km', 'm'), ('m', 'km'), ('mm', 'in'), ('kg', 'g'), ('g'
            ('W', 'erg/s'), ('T', 'G'), ('m-1', 'Ka'), ('statC', 'Fr'), ('um2', 'ar'), ('C', 'A*s')]
 PRODUCTS = [('km', 'm-1'), ('kg', 'g'), ('J', 'erg'), ('m', 's'), ('m', 'm'), ('km', 'h'), ('N', 'm'), ('kg*m/s2', 'm2'), ('m*s', 'm'), ('km2', 'mm-2'),
             ('W', 's'), ('%', 'm'), ('%', '%'), ('rad', 'm'), ('deg', 'rad'), ('Hz', 's'), ('kHz', 'ms'), ('g/cm3', 'l'), ('C', 'V'), ('m1:2', 'm1:2'),
-            ('mol', '[N_A]'), ('eV', '[k_B]'), ('km*%', 'm-1'), ('ppth*kHz', 's'), ('kJ*[pi]', 'J-1'), ('%*h', 'Hz'), ('rad*km', 'mm-1'), ('dam2*ppth', 'cm-2')]
+            ('mol', '[N_A]'), ('eV', '[k_B]'), ('km*%', 'm-1'), ('ppth*kHz', 's'), ('kJ*[pi]', 'J-1'), ('%*h', 'Hz'), ('rad*km', 'mm-1'), ('dam2*ppth', 'cm-2'),
+            # fractional exponents that cancel completely (the folded factor is a fractional power of the prefix)
+            ('m1:2', 'cm1:2'), ('km1:2', 'm-1:2'), ('kJ1:3', 'erg1:3'), ('km3:2', 'm3:2'), ('cm-1:2', 'm-1:2'), ('kg1:2*m', 'g1:2*cm')]
 NUMBER_UNITS = [('m', False), ('km/h', False), ('%', True), ('ppth', True), ('kg*m2/s2', False), ('[alpha]', True)]
 MISMATCH = [('m', 's'), ('m', 'm2'), ('kg', 'N'), ('J', 'W'), ('m', 'rad'), ('Pa', 'N'), ('%', 'm'), ('Hz', 's'), ('m/s', 'm/s2'), ('C', 'A'), ('J', 'N'), ('m1:2', 'm')]
 POW_UNITS = ['m', 'km', 'm3', 'kg*m2/s2', 'cm-1']
